@@ -296,7 +296,11 @@ ly_ctx_ht_leafref_links_rec_free(void *val_p)
 {
     struct lyd_leafref_links_rec *rec = val_p;
 
-    lyd_free_leafref_links_rec(rec);
+    /* all the records are being freed, there are no links to update (and no records must be removed meanwhile) */
+    LY_ARRAY_FREE(rec->leafref_nodes);
+    rec->leafref_nodes = NULL;
+    LY_ARRAY_FREE(rec->target_nodes);
+    rec->target_nodes = NULL;
 }
 
 LIBYANG_API_DEF LY_ERR
